@@ -135,3 +135,14 @@ def fstr(parts):
         else:
             out.append(p)
     return "".join(out)
+
+
+HAVOC_ARMED = {}
+
+
+def havoc(fn, var, current):
+    """loop cut: returns the harness-supplied value when armed, else the real one"""
+    f = HAVOC_ARMED.get((fn, var))
+    if f is None:
+        return current
+    return f(current)
